@@ -678,6 +678,19 @@ class Body:
             self._refining = False
             self._refined = True
 
+    def force_switches(self, forced):
+        """resolve the given switches ({block: discriminant value}) under a data invariant established elsewhere
+        and rebuild the flow graph; the arms not taken become dead code for every later query on this body"""
+        new = {bb: v for bb, v in forced.items() if self._forced.get(bb) != v}
+        if not new:
+            return
+        self._ensure_cfg()
+        self._forced.update(new)
+        self._succ = self._pred = self._dom = self._pdom = self._defs = None
+        self._reach = {}
+        self._cl = None
+        self._build_cfg()
+
     def succs(self, bb):
         if self._succ is None:
             self._ensure_cfg()
